@@ -731,10 +731,14 @@ func init() {
 				c.MaxWallS = 300
 				r = append(r, c)
 			}
+			for _, c := range boxInstances(L, "VerifC20Box", tierN(tier, -48, 64), tierW(tier, 2, 15), [][]string{{}}, false) {
+				c.WriteMon = true
+				r = append(r, c)
+			}
 			return r
 		},
 		Bounds: func(tier string) map[string]interface{} {
-			return map[string]interface{}{"inputs": "constructor-built fragmented files (clear, with mfra, cenc/cbcs encrypted audio with symbolic payload)"}
+			return map[string]interface{}{"boxes": "every registered box type, fully symbolic payload (quick: calibration-selected lengths <= 48; thorough: every length 0..64)", "inputs": "constructor-built fragmented files (clear, with mfra, cenc/cbcs encrypted audio with symbolic payload)"}
 		},
 		Covers: []string{"write set checked"}, RequireCovers: true,
 		Validate: 1,
